@@ -148,9 +148,9 @@ def mutate(rng, spec):
     if len(d["quad"]) >= 2:
         kinds += ['switch']
     if s["form"] == 'cqm':
-        kinds += ['extra_unused_var'] if False else []
+        kinds += ['unusedvar', 'discmark']
         if s["cons"]:
-            kinds += ['sense', 'rhs', 'clabel', 'cperm', 'clhs', 'dropc', 'soft'] * 2
+            kinds += ['sense', 'rhs', 'clabel', 'cperm', 'clhs', 'dropc', 'soft', 'penalty'] * 2
         else:
             kinds += ['addc']
     k = rng.choice(kinds)
@@ -244,6 +244,19 @@ def mutate(rng, spec):
         s["cons"].append({"label": "c9", "sense": '<=', "rhs": "1", "lhs": {"vars": [], "lin": [], "quad": [], "off": "0"}})
     elif k == 'soft':
         rng.choice(s["cons"])["weight"] = "2"
+    elif k == 'penalty':
+        # soft on both sides; weight and (where allowed) penalty kind differ
+        c = rng.choice(s["cons"])
+        i = s["cons"].index(c)
+        spec["cons"][i]["weight"] = "3/2"
+        c["weight"] = "2"
+        if all(v[1] == 'BINARY' for v in c["lhs"]["vars"]):
+            c["penalty"] = 'quadratic'
+    elif k == 'unusedvar':
+        s["unused"] = [["unused_v", rng.choice(['BINARY', 'SPIN', 'INTEGER', 'REAL'])]]
+    elif k == 'discmark':
+        spec["disc"] = {"vars": ["disc_1", "disc_2"], "marked": rng.random() < 0.5}
+        s["disc"] = {"vars": ["disc_1", "disc_2"], "marked": not spec["disc"]["marked"]}
     return s
 
 
@@ -386,7 +399,22 @@ def build(s, keep):
         kw = {}
         if "weight" in c:
             kw = dict(weight=float(F(c["weight"])), penalty='linear')
+        if "weight" in c:
+            kw["penalty"] = c.get("penalty", 'linear')
         cqm.add_constraint_from_model(build_qm(c["lhs"]), c["sense"], rhs=float(F(c["rhs"])), label=c["label"], **kw)
+    if "disc" in s:
+        # the same one-hot constraint, with or without the discrete mark
+        labs = [dec_label(l) for l in s["disc"]["vars"]]
+        if s["disc"]["marked"]:
+            cqm.add_discrete(labs, label='disc')
+        else:
+            q = dimod.QuadraticModel()
+            for l in labs:
+                q.add_variable('BINARY', l)
+                q.set_linear(l, 1)
+            cqm.add_constraint_from_model(q, '==', rhs=1, label='disc')
+    for l, vt in s.get("unused", []):
+        cqm.add_variable(vt, dec_label(l))
     return cqm
 
 
@@ -413,7 +441,11 @@ def c_emdl(m, T):
 
 def c_obj(x, T, CT):
     if isinstance(x, dimod.ConstrainedQuadraticModel):
-        cons = clist([f"({cnat(CT.idx(l))}, mkC {SCOQ[c.sense.value]} {c_emdl(c.lhs, T)} {cq(F(c.rhs))})"
+        def soft(c):
+            w = c.lhs.weight()
+            return "None" if w == float('inf') else f"(Some {cq(F(w))})"
+        cons = clist([f"({cnat(CT.idx(l))}, mkC {SCOQ[c.sense.value]} {c_emdl(c.lhs, T)} {cq(F(c.rhs))} {soft(c)} "
+                      f"{cbool(c.lhs.penalty() == 'quadratic')} {cbool(c.lhs.is_discrete())})"
                       for l, c in x.constraints.items()])
         qv = clist([cpair(cnat(T.idx(v)), x.vartype(v).name) for v in x.variables])
         return f"(OCqm (mkCqm {c_emdl(x.objective, T)} {qv} {cons}))"
